@@ -191,6 +191,7 @@ func drawCfg(t *core.Tape, opt core.Options) RunCfg {
 			c.ByzStrat[0] = "equivocate"
 		}
 	case "C01", "C03", "C04":
+		c.InvalidHeavy = opt.Property == "C03" && emphStrat == 0
 		if c.NVal >= 4 && opt.Int("faults", 1) > 0 {
 			if opt.Property != "C04" {
 				c.Filters = true
